@@ -237,13 +237,11 @@ func newPfWorld(cfg pfCfg) (*pfWorld, error) {
 			})
 		case "profile":
 			w.reply(rw, st.Profile, 200, func() string {
-				gs := st.Profile.Groups
-				if w.intersect {
-					gs = []string{}
-					for _, g := range strings.Split(r.Form.Get("groups"), ",") {
-						if containsStr(st.Profile.Groups, g) {
-							gs = append(gs, g)
-						}
+				// like the real authenticator: the answer names only groups that were asked about
+				gs := []string{}
+				for _, g := range strings.Split(r.Form.Get("groups"), ",") {
+					if containsStr(st.Profile.Groups, g) {
+						gs = append(gs, g)
 					}
 				}
 				b, _ := json.Marshal(M{"email": r.Form.Get("email"), "groups": gs})
